@@ -738,6 +738,7 @@ type sk struct {
 	recvType string
 	depth    int
 	stack    map[string]bool
+	alias    map[string]string // local variable -> the call it was assigned from (a lock obtained from a method is named after the method)
 }
 
 func exprStr(e ast.Expr) string {
@@ -780,7 +781,11 @@ func (k *sk) call(c *ast.CallExpr, deferred bool) {
 			if deferred {
 				n = "Defer" + n
 			}
-			k.add("S"+n, exprStr(sel.X))
+			name := exprStr(sel.X)
+			if a, ok := k.alias[name]; ok {
+				name = a // the lock is named after where it comes from, not after the local variable that holds it
+			}
+			k.add("S"+n, name)
 			return
 		}
 		if id, ok := sel.X.(*ast.Ident); ok && id.Name == "verifhook" {
@@ -816,7 +821,7 @@ func (k *sk) call(c *ast.CallExpr, deferred bool) {
 	if sel, ok := c.Fun.(*ast.SelectorExpr); ok && !deferred {
 		if id, ok := sel.X.(*ast.Ident); ok && id.Name == k.recv && !isExported(sel.Sel.Name) {
 			target := k.recvType + "." + sel.Sel.Name
-			if fi, ok := funcs[target]; ok && k.depth < 3 && !k.stack[target] && !keepCall[target] {
+			if fi, ok := funcs[target]; ok && k.depth < 6 && !k.stack[target] && !keepCall[target] {
 				sub := &sk{recv: fi.decl.Recv.List[0].Names[0].Name, recvType: k.recvType, depth: k.depth + 1, stack: map[string]bool{target: true}}
 				for t := range k.stack {
 					sub.stack[t] = true
@@ -896,6 +901,16 @@ func (k *sk) stmt(s ast.Stmt) {
 	case *ast.AssignStmt:
 		for _, r := range x.Rhs {
 			k.expr(r)
+		}
+		if len(x.Lhs) == 1 && len(x.Rhs) == 1 {
+			if id, ok := x.Lhs[0].(*ast.Ident); ok {
+				if c, ok := x.Rhs[0].(*ast.CallExpr); ok {
+					if k.alias == nil {
+						k.alias = map[string]string{}
+					}
+					k.alias[id.Name] = exprStr(c.Fun)
+				}
+			}
 		}
 		for _, l := range x.Lhs {
 			if strings.Contains(exprStr(l), ".") {
